@@ -14,7 +14,8 @@ var c17CoreControls = map[string]bool{
 	"args-error-code-3": true, "rawfile-swallowed": true,
 	"args-split-at-every-eq": true, "args-value-reparsed": true,
 	"flag-collision": true, "mode-files-include-expr": true,
-	"go-exitcode-ignored": true, "go-halt-swallowed": true,
+	"go-exitcode-ignored": true, "go-halt-swallowed": true, "go-halt-tostring": true,
+	"input-filename-not-reset": true, "rawinput-rtrim": true,
 }
 
 func init() {
@@ -71,6 +72,12 @@ func init() {
 	add("input-refeed-arm", "C17.inputs", ini, "    | if has(\"next\") then .next\n", "    | if has(\"next\") then .next | f\n", "_input:open:no-refeed")
 	add("input-decode-whole-tag", "C17.inputs", ini, "        ( .opened\n        | try f\n", "        ( .\n        | try f\n", "_input:decode-operand")
 	add("input-arms-swapped", "C17.inputs", ini, "    | if has(\"next\") then .next\n", "    | if has(\"opened\") then .next\n", "_input:open:no-refeed")
+	add("input-filename-not-reset", "C17.inputs", ini, "    | _input_filenames($t)\n    | _input_filename(null) as $_\n", "    | _input_filenames($t)\n", "input_filename:reset-before-open")
+	// rawinput
+	add("rawinput-rtrim", "C17.rawinput", ini, "                  | rtrimstr(\"\\n\")\n", "                  | rtrim\n", "lines:strip-one-newline")
+	add("rawinput-keep-newline", "C17.rawinput", ini, "                  | rtrimstr(\"\\n\")\n", "", "lines:strip-one-newline")
+	add("rawinput-split-space", "C17.rawinput", ini, "                  | split(\"\\n\")\n", "                  | split(\" \")\n", "lines:split")
+	add("rawinput-tail-lost", "C17.rawinput", ini, "          | _input_strings_lines($t)\n", "          | _input_strings_lines([])\n", "")
 	// handlers
 	add("args-error-code-3", "C17.handlers", ini, "      catch _fatal_error(_exit_code_args_error)", "      catch _fatal_error(_exit_code_compile_error)", "halt:_main/0")
 	add("args-include-argv0", "C17.handlers", ini, "try _args_parse($args[1:]; _opt_cli_opts)", "try _args_parse($args[0:]; _opt_cli_opts)", "main:args-parse")
@@ -119,5 +126,8 @@ func init() {
 	add("go-error-exits-0", "C17.go", "pkg/cli/cli.go", "				return ex.ExitCode()\n			}\n			return 1", "				return ex.ExitCode()\n			}\n			return 0", "cli.Main:return-0")
 	add("go-halt-swallowed", "C17.go", "pkg/interp/interp.go", "				return haltErr\n", "				return nil\n", "Interp.Main:return-nil")
 	add("go-error-swallowed", "C17.go", "pkg/interp/interp.go", "				fmt.Fprintln(i.OS.Stderr(), v)\n			}\n			return v", "				fmt.Fprintln(i.OS.Stderr(), v)\n			}\n			return nil", "Interp.Main:return-nil")
+	add("go-halt-tostring", "C17.go", "pkg/interp/interp.go", "if str, ok := haltErrV.(string); ok {", "if str, err := toString(haltErrV); err == nil {", "halt-print:string-test")
+	add("go-halt-no-newline", "C17.go", "pkg/interp/interp.go", "Write([]byte{'\\n'})", "Write([]byte{' '})", "halt-print")
+	add("go-halt-nil-prints", "C17.go", "pkg/interp/interp.go", "if haltErrV := haltErr.Value(); haltErrV != nil {", "if haltErrV := haltErr.Value(); true {", "halt-print:nil-silent")
 	add("go-halt-to-stdout", "C17.go", "pkg/interp/interp.go", "if _, err := i.OS.Stderr().Write([]byte(str)); err != nil {", "if _, err := output.Write([]byte(str)); err != nil {", "Interp.Main:halt-output")
 }
